@@ -258,10 +258,20 @@ func c12Value(c *core.Ctx) {
 	lr, isRet := last.(*ast.ReturnStmt)
 	c.Ob("C12-R1", fd.Name()+"#none-is-nil", last.Pos(), isRet && len(lr.Results) == 1 && core.IsNil(info, lr.Results[0]) && last.Pos() > loop.End(),
 		"when no value is accepted the function does not return nil (a guess would be made)")
+	cld := core.NewLocalDefs(info, fd.Decl.Body)
 	class := func(e ast.Expr) string {
 		e = ast.Unparen(e)
 		if st, ok := e.(*ast.StarExpr); ok {
 			e = ast.Unparen(st.X)
+		}
+		// a local that holds one of the two dates (since := rv.Since)
+		if id, ok := e.(*ast.Ident); ok {
+			if v := core.VarOf(info, id); v != nil && v != elem && v != dateParam && len(cld.All(v)) == 1 {
+				e = ast.Unparen(cld.Resolve(id, 2))
+				if st, ok := e.(*ast.StarExpr); ok {
+					e = ast.Unparen(st.X)
+				}
+			}
 		}
 		if core.IsFieldOfVar(info, e, elem, "Since") {
 			return "A"
